@@ -46,7 +46,7 @@ DRIVERS = {
     "valid": lambda rng, tier: gen.gen_valid(rng, T(tier, 120, 1500), full_every=T(tier, 3, 3)),
     "struct": lambda rng, tier: gen.gen_struct(rng, T(tier, 80, 800)),
     "prefix": lambda rng, tier: gen.gen_prefix(rng, T(tier, 60, 500)),
-    "text": lambda rng, tier: gen.gen_text(rng, T(tier, 60, 500)),
+    "text": lambda rng, tier: gen.gen_text(rng, T(tier, 60, 500)) + gen.gen_text_stale(rng, T(tier, 60, 600)),
     "hist": lambda rng, tier: gen.gen_hist(rng, T(tier, 160, 2400), length=T(tier, (8, 30), (10, 60))),
     "hist_long": lambda rng, tier: gen.gen_hist(rng, T(tier, 8, 64), length=T(tier, (150, 200), (300, 400)), full_every=25),
     "hist_full": lambda rng, tier: gen.gen_hist(rng, T(tier, 48, 600), full_every=1),
@@ -70,7 +70,7 @@ CHECKS = {
     "C01": {"drivers": ["auth", "valid", "api"], "models": ["gen_secp"]},
     "C02": {"drivers": ["struct", "valid"], "models": ["gen_secp", "gen_ed", "rlp"]},
     "C03": {"drivers": ["hist_full", "auth_light", "struct", "text", "prefix", "typed_b", "nodeid", "keys", "api", "huge"], "models": ["hist_k256", "gen_ed"]},
-    "C04": {"drivers": ["valid", "struct", "hist_full", "size_full"], "models": ["gen_secp", "rlp"]},
+    "C04": {"drivers": ["valid", "struct", "hist_full", "size_full", "auth_light"], "models": ["gen_secp", "rlp"]},
     "C05": {"drivers": ["hist", "hist_long", "size"], "models": ["hist_k256", "hist_ed", "hist_comb_secp", "hist_comb_ed", "build_ed"], "models_thorough": ["hist_sim"]},
     "C06": {"drivers": ["hist", "size", "seq"], "models": ["hist_k256", "hist_comb_secp"]},
     "C07": {"drivers": ["seq", "hist"], "models": ["hist_k256"]},
